@@ -43,7 +43,13 @@ let parse_action (tok : string array) : action =
       ABodyTag (List.map (fun kv -> match String.split_on_char '=' kv with
                                     | [k; v] -> (n_of_int (int_of_string k), n_of_int (int_of_string v))
                                     | _ -> failwith "btag") (split ';' tok.(1)))
-  | "bconv" -> ABodyConvert
+  | "bconv" ->
+      (* failing (converter, stream) pairs: c:i,c:i *)
+      let pairs = if Array.length tok < 2 then [] else
+          List.map (fun kv -> match String.split_on_char ':' kv with
+                              | [c; i] -> (n_of_int (int_of_string c), n_of_int (int_of_string i))
+                              | _ -> failwith "bconv") (split ',' tok.(1)) in
+      ABodyConvert pairs
   | "bmerge" -> ABodyMerge
   | "complete" ->
       AComplete (match tok.(1) with "import" -> JImport | "tag" -> JTag | "convert" -> JConvert | "merge" -> JMerge
@@ -121,6 +127,7 @@ let () =
   let k = ref faithful in
   let states = ref [] in
   let dead = ref false in
+  let pools : (string, line list list) Hashtbl.t = Hashtbl.create 4 in
   (try
      while true do
        let line = input_line ic in
@@ -130,7 +137,25 @@ let () =
              let t = Array.of_list (String.split_on_char ' ' line) in
              k := { kf_inherit = b t.(1); kf_idonly = b t.(2); kf_reset = b t.(3); kf_inflight = b t.(4);
                     kf_mergeconv = b t.(5); kf_viewstore = b t.(6); kf_detachreset = b t.(7) }
+         | 'P' ->
+             (* process pool of one converter: P <conv> <chunks v:c,v:c> || <expected: E | c,c>
+                the model (kill rule) answers the request; compared with what Converter.Data returned *)
+             let sep = " || " in
+             let rec find i = if i + 4 > String.length line then failwith "no sep" else if String.sub line i 4 = sep then i else find (i + 1) in
+             let p = find 0 in
+             let toks = Array.of_list (List.filter (fun x -> x <> "") (String.split_on_char ' ' (String.sub line 2 (p - 2)))) in
+             let expected = String.trim (String.sub line (p + 4) (String.length line - p - 4)) in
+             let cs = List.map (fun kv -> match String.split_on_char ':' kv with
+                                          | [v; c] -> (v = "1", n_of_int (int_of_string c))
+                                          | _ -> failwith "P") (split ',' toks.(1)) in
+             let pl = try Hashtbl.find pools toks.(0) with Not_found -> [] in
+             let (o, pl') = request true (answer cs) pl in
+             Hashtbl.replace pools toks.(0) pl';
+             let got = match o with None -> "E" | Some l -> String.concat "," (List.map (fun x -> string_of_int (int_of_n x)) l) in
+             if got = expected then output_string oc "OK 1\n"
+             else output_string oc (Printf.sprintf "DIVERGE expected=pool=%s got=pool=%s\n" expected got)
          | 'S' ->
+             Hashtbl.reset pools;
              let t = Array.of_list (String.split_on_char ' ' line) in
              states := [ init (ns ',' t.(2)) ];
              dead := false;
